@@ -2534,6 +2534,13 @@ void remove_interactive (object_t * ob, int dested) {
       free_sentence (ip->input_to);
       ip->input_to = 0;
     }
+  /* Events of the current poll round that still wait in g_io_events[] carry this record's address as their
+   * context. Once the record is freed the allocator may give the same address to the next new_interactive()
+   * (an accept in the same round), and process_io() would deliver the stale event - e.g. the hang-up of this
+   * connection - to the new user. */
+  for (idx = 0; idx < g_num_io_events; idx++)
+    if (g_io_events[idx].context == ip)
+      g_io_events[idx].context = 0;
   for (idx = 0; idx < max_users; idx++)
     if (all_users[idx] == ip)
       break;
